@@ -16,6 +16,32 @@ from .core import AnalysisError
 from .num import Num
 from .srcmodel import ClassInfo, FuncInfo, SrcModel
 
+try:
+    import sympy as _sp
+except ImportError:     # the interpreter itself does not need sympy
+    _sp = None
+
+
+def _is_sym(v):
+    return _sp is not None and isinstance(v, _sp.Basic)
+
+
+def num_to_sym(v):
+    """Num -> sympy (atoms become positive symbols)"""
+    if _is_sym(v):
+        return v
+    if isinstance(v, bool):
+        return _sp.Integer(int(v))
+    if isinstance(v, Num):
+        out = _sp.Integer(0)
+        for k, c in v.terms.items():
+            term = _sp.Rational(c.numerator, c.denominator)
+            for a, p_ in k:
+                term = term * _sp.Symbol(a, positive=True) ** _sp.Rational(p_.numerator, p_.denominator)
+            out = out + term
+        return out
+    raise TypeError(v)
+
 # ---------------------------------------------------------------------------
 # values
 
@@ -376,7 +402,7 @@ class Interp:
         r = self.model.resolve(modname, name)
         if r is None:
             if ("builtins." + name) in self.ext or name in _BUILTIN_EXC or name in (
-                    "dict", "str", "list", "tuple", "float", "int", "bool", "set", "object", "type"):
+                    "dict", "str", "list", "tuple", "float", "int", "bool", "set", "object", "type", "slice"):
                 return ExtRef("builtins." + name)
             self.err(node, f"unresolved name '{name}' in module {modname}")
         return self.wrap_resolved(r)
@@ -573,6 +599,8 @@ class Interp:
             return v.label
         if isinstance(v, ExtRef):
             return v.dotted
+        if _is_sym(v):
+            return str(v)
         if isinstance(v, Mask):
             return v.desc
         if isinstance(v, UnknownBool):
@@ -661,6 +689,8 @@ class Interp:
             return "Frame"
         if isinstance(v, Num):
             return "Num"
+        if _is_sym(v):
+            return "Sym"
         if isinstance(v, Opaque):
             return "Opaque:" + v.tag.split("(")[0]
         if isinstance(v, Mask):
@@ -668,6 +698,12 @@ class Interp:
         return type(v).__name__     # incl. SStr, Tok, MiniFrame, Col of pgverif.docsim
 
     def to_py(self, v, node=None):
+        if _is_sym(v):
+            if v.is_Integer:
+                return int(v)
+            if v.is_number:
+                return float(v)
+            self.err(node, "symbolic term where a concrete value is needed")
         if isinstance(v, Num):
             if v.is_const():
                 f = v.value()
@@ -711,6 +747,12 @@ class Interp:
             return self.choose(2, label or f"truth({v.canon()})") == 0
         if isinstance(v, UnknownBool):
             return self.choose(2, label or v.label) == 0
+        if _is_sym(v):
+            if v.is_zero is True:
+                return False
+            if v.is_zero is False or v.is_positive or v.is_negative:
+                return True
+            return self.choose(2, label or f"truth({v})") == 0
         if isinstance(v, (Obj, FuncRef, ClassRef, ModRef, ExtRef, ExcVal)):
             return True
         if isinstance(v, Opaque):
@@ -786,6 +828,14 @@ class Interp:
         return None
 
     def compare(self, op, a, b, node):
+        if (_is_sym(a) or _is_sym(b)) and isinstance(op, (ast.Eq, ast.NotEq)) and \
+                (isinstance(a, (Num, bool)) or _is_sym(a)) and (isinstance(b, (Num, bool)) or _is_sym(b)):
+            rel = (_sp.Eq if isinstance(op, ast.Eq) else _sp.Ne)(num_to_sym(a), num_to_sym(b))
+            if rel == _sp.true:
+                return True
+            if rel == _sp.false:
+                return False
+            return UnknownBool(str(rel))
         if (type(a).__name__ == "Vec" or type(b).__name__ == "Vec") and not isinstance(op, (ast.Is, ast.IsNot, ast.In, ast.NotIn)):
             from .libsum import Vec
             va, vb = type(a).__name__ == "Vec", type(b).__name__ == "Vec"
@@ -826,6 +876,15 @@ class Interp:
             if isinstance(r, UnknownBool):
                 return r
             return r if isinstance(op, ast.In) else not r
+        if (_is_sym(a) or _is_sym(b)) and isinstance(op, (ast.Lt, ast.LtE, ast.Gt, ast.GtE, ast.Eq, ast.NotEq)) and \
+                (isinstance(a, (Num, bool)) or _is_sym(a)) and (isinstance(b, (Num, bool)) or _is_sym(b)):
+            x, y = num_to_sym(a), num_to_sym(b)
+            rel = {ast.Lt: _sp.Lt, ast.LtE: _sp.Le, ast.Gt: _sp.Gt, ast.GtE: _sp.Ge, ast.Eq: _sp.Eq, ast.NotEq: _sp.Ne}[type(op)](x, y)
+            if rel == _sp.true:
+                return True
+            if rel == _sp.false:
+                return False
+            return UnknownBool(str(rel))
         if isinstance(op, (ast.Lt, ast.LtE, ast.Gt, ast.GtE)):
             sym = {ast.Lt: "<", ast.LtE: "<=", ast.Gt: ">", ast.GtE: ">="}[type(op)]
             if isinstance(a, Arr) or isinstance(b, Arr):
@@ -1007,6 +1066,11 @@ class Interp:
                     raise self.fault("IndexError", node, "index out of range")
             if isinstance(idx, bool):
                 return v[int(idx)]
+            if _is_sym(idx) and idx.is_Integer:
+                try:
+                    return v[int(idx)]
+                except IndexError:
+                    raise self.fault("IndexError", node, "index out of range")
             raise self.fault("TypeError", node, "indices must be integers")
         if v is None:
             raise self.fault("TypeError", node, "'NoneType' object is not subscriptable")
@@ -1033,6 +1097,24 @@ class Interp:
 
     # -- arithmetic ----------------------------------------------------------------
     def binop(self, op, a, b, node):
+        if (_is_sym(a) or _is_sym(b)) and type(a).__name__ != "Vec" and type(b).__name__ != "Vec":
+            try:
+                x, y = num_to_sym(a), num_to_sym(b)
+            except TypeError:
+                raise self.fault("TypeError", node, f"unsupported operand types {self.kind_of(a)}, {self.kind_of(b)}")
+            if isinstance(op, ast.Add):
+                return x + y
+            if isinstance(op, ast.Sub):
+                return x - y
+            if isinstance(op, ast.Mult):
+                return x * y
+            if isinstance(op, ast.Div):
+                return x / y
+            if isinstance(op, ast.Pow):
+                return x ** y
+            if isinstance(op, ast.FloorDiv):
+                return _sp.floor(x / y)
+            self.err(node, f"operator {type(op).__name__} on symbolic terms")
         if type(a).__name__ == "Vec" or type(b).__name__ == "Vec":
             from .libsum import vec_binop
             return vec_binop(self, op, a, b, node)
@@ -1132,6 +1214,10 @@ class Interp:
         if isinstance(v, bool) or v is None or isinstance(v, str):
             return v
         if isinstance(v, (int, float)):
+            if getattr(self, "sympy_mode", False):
+                from fractions import Fraction as _F
+                fr = _F(repr(v)) if isinstance(v, float) else _F(v)
+                return _sp.Rational(fr.numerator, fr.denominator)
             return Num.const(v)
         if v is Ellipsis:
             return Opaque("...")
@@ -1166,6 +1252,8 @@ class Interp:
                     return None
                 if isinstance(v, Num) and v.is_const():
                     return int(v.value())
+                if _is_sym(v) and v.is_Integer:
+                    return int(v)
                 return v
             lo, hi, st = cv(s.lower), cv(s.upper), cv(s.step)
             if all(isinstance(x, (int, type(None))) for x in (lo, hi, st)):
@@ -1239,8 +1327,11 @@ class Interp:
         if isinstance(node.op, ast.Not):
             return not self.truth(v, node)
         if isinstance(node.op, ast.USub):
-            if isinstance(v, Num):
+            if isinstance(v, Num) or _is_sym(v):
                 return -v
+            if type(v).__name__ == "Vec":
+                from .libsum import Vec
+                return Vec([self.binop(ast.Sub(), Num.const(0) if not getattr(self, "sympy_mode", False) else _sp.Integer(0), x, node) for x in v.items])
             if isinstance(v, Arr):
                 return v.with_num(-v.num)
             if isinstance(v, Opaque):
@@ -1631,7 +1722,7 @@ class Interp:
 
         def b_float(I, a, k, n):
             v = a[0]
-            if isinstance(v, Num):
+            if isinstance(v, Num) or _is_sym(v):
                 return v
             if isinstance(v, bool):
                 return Num.const(int(v))
@@ -1771,3 +1862,4 @@ class Interp:
                                                 else Num.atom(f"abs({I.describe(a[0])})"))
         E["builtins.object.__init__"] = lambda I, a, k, n: None
         E["builtins.id"] = lambda I, a, k, n: Opaque("id")
+        E["builtins.slice"] = lambda I, a, k, n: slice(*[None if x is None else I.to_py(x, n) for x in a])
